@@ -39,9 +39,9 @@ let hz = function
   | UseAfterFree -> "uaf" | BadUnlock -> "badunlock" | BadCreate -> "badcreate"
   | DestroyBusy -> "destroybusy" | NoCallback -> "nocallback"
 
-let result scen (st, evs, oc) nspur =
+let result ?(undrained=false) scen (st, evs, oc) nspur =
   let e = match oc with
-    | Finished -> "done" | Deadlock -> "deadlock" | Faulted h -> hz h | OutOfFuel -> "fuel" | LostWakeup -> "lost-wakeup" in
+    | Finished -> if undrained then "undrained" else "done" | Deadlock -> "deadlock" | Faulted h -> hz h | OutOfFuel -> "fuel" | LostWakeup -> "lost-wakeup" in
   let ran = String.concat "," (List.map (fun ((p, i), t) ->
       Printf.sprintf "%d.%d@%d" (int_of_nat p) (int_of_nat i) (int_of_nat t)) st.ran) in
   let outs = String.concat "," (List.map (fun ((t, k), v) ->
@@ -99,6 +99,19 @@ let handle (pl : string) : string =
     let sc = ints sched in
     let ns = List.length (List.filter (fun c -> c >= 1000) sc) in
     result ("pool" ^ n) (let ((st, evs), oc) = run p fuel (init_pool (nat_of_int (ios n))) (nat_list sc) O [] [] in (st, evs, oc)) ns
+  | ["poolre"; n; r; sched] ->
+    let sc = ints sched in
+    let ns = List.length (List.filter (fun c -> c >= 1000) sc) in
+    let ((st, evs), oc) = run p fuel (init_poolre (nat_of_int (ios n)) (nat_of_int (ios r))) (nat_list sc) O [] [] in
+    (* JoinAll() returned: everything handed to the pool (also by running closures, also after shutdown began) has run once *)
+    let key (a, b) = (int_of_nat a, int_of_nat b) in
+    let drained = List.sort compare (List.map key st.subm) = List.sort compare (List.map (fun (c, _) -> key c) st.ran)
+                  && List.length st.subm = ios n + min (ios n) (ios r) in
+    result ~undrained:(not drained) ("poolre" ^ n ^ ":re" ^ r) (st, evs, oc) ns
+  | ["futasg"; ty; sched] when ty = "int" || ty = "void" ->
+    let sc = ints sched in
+    let ns = List.length (List.filter (fun c -> c >= 1000) sc) in
+    result ("futasg" ^ ty) (let ((st, evs), oc) = run p fuel init_fut_asg (nat_list sc) O [] [] in (st, evs, oc)) ns
   | ["periodic"; sched] ->
     let sc = ints sched in
     let ns = List.length (List.filter (fun c -> c >= 1000) sc) in
